@@ -48,6 +48,7 @@ var knownList []lib.Known
 const (
 	knownAlign = "C04-pretty-align-comma"
 	knownOmit  = "C04-pretty-omit"
+	knownMixed = "C04-pretty-align-mixed"
 )
 
 var writeLimits = []int{1, 2, 3, 7, 64, 1024}
@@ -646,6 +647,16 @@ func readSpec(a string) *lib.Node {
 // judgeText is the oracle for one text.
 func judgeText(d *lib.Driver, c *Case, r *run, exp *T, specAns string, omitNil, omitEmpty bool) {
 	node := readSpec(specAns)
+	// an alignment table with a column that holds arrays in some rows and maps in others: cells are
+	// matched by position when written but by key when the table is built; members are lost and
+	// separators misplaced (known finding, decided on the tree alone)
+	mixed := func() bool {
+		if c.Fam != "pretty" || !c.PR.Align || !lib.HasKnown(knownList, knownMixed) {
+			return false
+		}
+		pexp, _ := c.T.prettyNorm(omitNil, omitEmpty)
+		return pexp.hasMixedAlignTable(c.PR.MaxDepth)
+	}
 	if node != nil {
 		ok, why := denotes(exp, node)
 		if ok {
@@ -657,6 +668,10 @@ func judgeText(d *lib.Driver, c *Case, r *run, exp *T, specAns string, omitNil, 
 				knownFinding(knownOmit, "denote:"+r.entry+":"+code(why), "pretty drops more than OmitNil/OmitEmpty say: "+why, c, r, map[string]any{"spec": truncS(specAns)})
 				return
 			}
+		}
+		if mixed() {
+			knownFinding(knownMixed, "denote:"+r.entry+":"+code(why), "aligned table with a column mixing arrays and maps: "+why, c, r, map[string]any{"spec": truncS(specAns)})
+			return
 		}
 		finding("violation", "denote:"+r.entry+":"+code(why), "the text is valid JSON but does not denote the data written: "+why, c, r, map[string]any{"spec": truncS(specAns)})
 		return
@@ -681,6 +696,10 @@ func judgeText(d *lib.Driver, c *Case, r *run, exp *T, specAns string, omitNil, 
 				}
 			}
 		}
+	}
+	if mixed() {
+		knownFinding(knownMixed, "invalid:"+r.entry, "aligned table with a column mixing arrays and maps: the text is not valid JSON", c, r, nil)
+		return
 	}
 	finding("violation", "invalid:"+r.entry, "the text is not valid JSON ("+specAns+")", c, r, nil)
 }
